@@ -61,6 +61,8 @@ def _value_for(row, cls, n, npt):
         return float(sym) if t == "float" else int(sym)
     if cls == "wrongtype":
         return "yes"
+    if cls == "nan":
+        return float("nan")
     if cls == "true":
         return True
     if cls == "false":
@@ -91,8 +93,9 @@ def concretise(state, seed):
     """-> (description dict, kwargs builder) ; n = 2 so that npt-dependent ranges are small"""
     n = 2
     rng = np.random.default_rng([seed, 7])
-    A = rng.normal(size=(3, n))
-    b = rng.normal(size=3)
+    mm = 1 if (state["kind"] == "key" and state["st"].get("shape") == "under") else 3
+    A = rng.normal(size=(mm, n))
+    b = rng.normal(size=mm)
     kw = dict(rhobeg=0.1, rhoend=1e-6, maxfun=25)
     up = {}
     npt = n + 1
@@ -165,7 +168,14 @@ def concretise(state, seed):
             up["growing.ndirs_initial"] = 1
         if key == "growing.reset_rho" and cls == "true":
             pass   # dependency error predicted by the specification
-        up[key] = _value_for(row, cls, n, npt)
+        if cls == "explicit_default":
+            # the value the parameter has when it is not given: read from the library's own parameter list for this problem size
+            from dfols.params import ParameterList
+            dflt = ParameterList(n, npt, int(kw["maxfun"]), objfun_has_noise=False)(key)
+            if dflt is not None:
+                up[key] = dflt
+        else:
+            up[key] = _value_for(row, cls, n, npt)
     else:
         up["no.such.parameter"] = 1
     if up:
